@@ -3,7 +3,7 @@
 import json, sys, subprocess
 rnd = int(sys.argv[1]); M = json.load(open(sys.argv[2]))
 base = subprocess.check_output(["git", "-C", "/repo", "rev-parse", "--short", "HEAD"]).decode().strip()
-nth = {2: "second", 3: "third", 4: "fourth", 5: "fifth", 6: "sixth", 7: "seventh", 8: "eighth"}[rnd]
+nth = {2: "second", 3: "third", 4: "fourth", 5: "fifth", 6: "sixth", 7: "seventh", 8: "eighth", 9: "ninth"}[rnd]
 for m, (what, needs, det) in M.items():
     d = "/verif/seeded/" + m
     log = open(d + "/confirm.log").read().strip().splitlines()[-1]
